@@ -78,6 +78,95 @@ func runC18(c *Ctx) error {
 			}
 		}
 	}
+	return c18Conn(c)
+}
+
+// the two application sites: every client-sent payload unmasks to the application payload (all write APIs, control
+// frames included), and every masked frame a server receives reaches the application unmasked
+func c18Conn(c *Ctx) error {
+	lens := []int{0, 1, 3, 4, 5, 7, 8, 9, 63, 64, 65, 71, 72, 125, 126, 127, 128, 1000, 65535, 65536, 70001}
+	// (a) client send
+	cs := connSpec{Server: false}
+	conn, tap, err := cs.open(&recHandler{})
+	if err != nil {
+		return err
+	}
+	for li, n := range lens {
+		for _, api := range []string{"message", "writev", "async", "writevasync", "file", "ping", "pong", "broadcast"} {
+			if (api == "ping" || api == "pong") && n > 125 {
+				continue
+			}
+			p := randBytes(c.Rng, n)
+			op := sendOp{API: api, Opcode: 2, Slices: splitSlices(c, p, 1+li%3)}
+			switch api {
+			case "file":
+				op.Reader = newChunkReader(splitEven(p, 1+li%3), "sep")
+			case "ping":
+				op.Opcode = 9
+			case "pong":
+				op.Opcode = 10
+			}
+			obs := doSend(conn, tap, op)
+			tag := fmt.Sprintf("client send api=%s len=%d", api, n)
+			fs, rest, perr := parseFrames(obs.Wire)
+			var got []byte
+			allMasked := true
+			for _, f := range fs {
+				got = append(got, f.Payload...)
+				allMasked = allMasked && f.Masked
+			}
+			replay := map[string]any{"tag": tag, "wire_prefix": fmt.Sprintf("%x", head(obs.Wire, 64)), "payload_prefix": fmt.Sprintf("%x", head(p, 32))}
+			switch {
+			case obs.Res != 0 && obs.Res != 100 || perr != nil || len(rest) != 0 || len(fs) == 0:
+				c.oracleFail(fmt.Sprintf("client send failed or wrote no whole frame (result %d) [%s]", obs.Res, tag), "client-send", replay)
+			case !allMasked:
+				c.oracleFail("a client-sent frame is not masked ["+tag+"]", "client-unmasked-frame", replay)
+			case !bytes.Equal(got, p):
+				c.oracleFail("the client-sent payload on the wire does not unmask to the application payload ["+tag+"]", "client-mask-payload", replay)
+			}
+			c.count(tag, n > 0, "site=client-send", fmt.Sprintf("lenclass=%s", lenClass(n)))
+		}
+	}
+	// (b) masked receive on a server: data (whole and fragmented), ping, pong, close reason
+	for li, n := range lens {
+		key := [4]byte{byte(17 * li), byte(3 + li), 0xa5, byte(c.Rng.Intn(256))}
+		p := randBytes(c.Rng, n)
+		var stream []byte
+		var want []evRec
+		stream = append(stream, encodeFrame(frameSpec{Fin: true, Opcode: 2, Masked: true, Key: key, Payload: p, DeclLen: -1})...)
+		want = append(want, evRec{Kind: "msg", Opcode: 2, Payload: p})
+		if n >= 2 {
+			stream = append(stream, encodeFrame(frameSpec{Fin: false, Opcode: 2, Masked: true, Key: key, Payload: p[:n/2], DeclLen: -1})...)
+			stream = append(stream, encodeFrame(frameSpec{Fin: true, Opcode: 0, Masked: true, Key: [4]byte{key[3], key[2], key[1], key[0]}, Payload: p[n/2:], DeclLen: -1})...)
+			want = append(want, evRec{Kind: "msg", Opcode: 2, Payload: p})
+		}
+		if n <= 125 {
+			stream = append(stream, encodeFrame(frameSpec{Fin: true, Opcode: 9, Masked: true, Key: key, Payload: p, DeclLen: -1})...)
+			stream = append(stream, encodeFrame(frameSpec{Fin: true, Opcode: 10, Masked: true, Key: key, Payload: p, DeclLen: -1})...)
+			want = append(want, evRec{Kind: "ping", Opcode: 9, Payload: p}, evRec{Kind: "pong", Opcode: 10, Payload: p})
+		}
+		reason := []byte("masked close reason")
+		stream = append(stream, encodeFrame(frameSpec{Fin: true, Opcode: 8, Masked: true, Key: key, Payload: append([]byte{0x0f, 0xa1}, reason...), DeclLen: -1})...)
+		obs, _, _, err := runInbound(connSpec{Server: true, RLimit: 1 << 20}, cutChunks(c, stream, li%3))
+		if err != nil {
+			return err
+		}
+		tag := fmt.Sprintf("masked receive len=%d key=%x", n, key)
+		replay := map[string]any{"tag": tag, "stream_prefix": fmt.Sprintf("%x", head(stream, 64))}
+		if !sameEvents(want, obs.Events) {
+			what := fmt.Sprintf("%d callbacks, expected %d", len(obs.Events), len(want))
+			for i := range want {
+				if i < len(obs.Events) && !bytes.Equal(want[i].Payload, obs.Events[i].Payload) {
+					what = fmt.Sprintf("callback %d (%s) received %x..., the application payload is %x...", i, want[i].Kind, head(obs.Events[i].Payload, 8), head(want[i].Payload, 8))
+					break
+				}
+			}
+			c.oracleFail("masked frames received by a server: "+what+" ["+tag+"]", "server-unmask", replay)
+		} else if obs.Kind != 2 || obs.A != 4001 || !bytes.Equal(obs.B, reason) {
+			c.oracleFail(fmt.Sprintf("masked Close frame: reported code %d reason %q [%s]", obs.A, obs.B, tag), "server-unmask-close", replay)
+		}
+		c.count(tag, n > 0, "site=server-receive", fmt.Sprintf("lenclass=%s", lenClass(n)))
+	}
 	return nil
 }
 
